@@ -85,6 +85,8 @@ def geometry_of(enz):
         if (enz.site, enz.fst5 - len(enz.site), -enz.ovhg) != g.key():
             raise HarnessError("Biopython data for {} disagrees with the literature".format(name))
         return g
+    if enz.is_3overhang():
+        return rm.Geometry(name, enz.site, enz.fst5 - len(enz.site) - enz.ovhg, enz.ovhg, three=True)
     return rm.Geometry(name, enz.site, enz.fst5 - len(enz.site), -enz.ovhg)
 
 
